@@ -35,29 +35,81 @@ type Base struct {
 
 // Item is one input line: a point ("P"), a credential case ("C") or a request for random cases ("R").
 type Item struct {
-	Kind   string `json:"kind"`
-	Tag    string `json:"tag"`
-	H      string `json:"h"`
-	W      int64  `json:"w"`
-	A      int64  `json:"a"`
-	B      int64  `json:"b"`
-	Ej     int64  `json:"ej"`
-	Fn     string `json:"fn"`
-	Base   Base   `json:"base"`
-	Pert   string `json:"pert"`
-	Expect string `json:"expect"`
-	N      int    `json:"n"`
-	MaxW   int64  `json:"maxw"`
+	Kind   string  `json:"kind"`
+	Tag    string  `json:"tag"`
+	H      string  `json:"h"`
+	W      int64   `json:"w"`
+	A      int64   `json:"a"`
+	B      int64   `json:"b"`
+	Ej     int64   `json:"ej"`
+	Fn     string  `json:"fn"`
+	Base   Base    `json:"base"`
+	Pert   string  `json:"pert"`
+	Expect string  `json:"expect"`
+	N      int     `json:"n"`
+	MaxW   int64   `json:"maxw"`
+	Ops    []SeqOp `json:"ops"`
+	Hid    int     `json:"hid"`
+	J      int64   `json:"j"`
+}
+
+// Tup is the (key, seed variant, index, step) tuple of a sequence operation.
+type Tup struct {
+	K  int    `json:"k"`
+	Sv string `json:"sv"`
+	Ix int    `json:"ix"`
+	St int    `json:"st"`
+}
+
+// SeqOp is one operation of a generated sequence: issue a credential for T, or present the credential issued for C with inputs T.
+type SeqOp struct {
+	Op string `json:"op"`
+	T  Tup    `json:"t"`
+	C  Tup    `json:"c"`
 }
 
 type world struct {
-	keys []*fixture.Key
-	sks  []vrf.PrivateKey
-	pks  []vrf.PublicKey
+	keys  []*fixture.Key
+	sks   []vrf.PrivateKey
+	pks   []vrf.PublicKey
+	tails map[Base]common.Hash // seeds found for the bases with sd = 0 (VRF output in the top 1% of the range)
+}
+
+var hmax = new(big.Int).Sub(new(big.Int).Lsh(big.NewInt(1), 256), big.NewInt(1))
+
+func inTail(h common.Hash) bool {
+	return new(big.Int).Mul(new(big.Int).SetBytes(h[:]), big.NewInt(100)).Cmp(new(big.Int).Mul(hmax, big.NewInt(99))) > 0
+}
+
+// seed of a base: sd >= 1 names a fixed seed; sd = 0 asks for a seed for which this key's VRF output on (seed, step, index) is in the
+// upper tail -- searched deterministically (about a hundred evaluations).
+func (wd *world) seed(bs Base) common.Hash {
+	if bs.Sd != 0 {
+		return seedOf(bs.Sd)
+	}
+	if sd, ok := wd.tails[bs]; ok {
+		return sd
+	}
+	for n := 0; ; n++ {
+		sd := crypto.Keccak256Hash([]byte("c04-tail-seed"), big.NewInt(int64(n)).Bytes(), big.NewInt(int64(bs.K*100+bs.Ix*10+bs.St)).Bytes(), big.NewInt(bs.W).Bytes())
+		val, _ := wd.sks[bs.K].Evaluate(ucon.MakeM(sd, uint32(bs.St), uint32(bs.Ix)))
+		if inTail(common.Hash(val)) {
+			wd.tails[bs] = sd
+			return sd
+		}
+	}
+}
+
+// seed variants of the perturbations and of the sequences
+func flip(sd common.Hash, bytes ...int) common.Hash {
+	for _, b := range bytes {
+		sd[b] ^= 0xa5
+	}
+	return sd
 }
 
 func newWorld(n int) *world {
-	w := &world{keys: fixture.Keys("c04", n)}
+	w := &world{keys: fixture.Keys("c04", n), tails: map[Base]common.Hash{}}
 	w.sks = make([]vrf.PrivateKey, n+1)
 	w.pks = make([]vrf.PublicKey, n+1)
 	for i := 1; i <= n; i++ {
@@ -74,7 +126,9 @@ func newWorld(n int) *world {
 	return w
 }
 
-func seedOf(sd int) common.Hash { return crypto.Keccak256Hash([]byte("c04-seed"), big.NewInt(int64(sd)).Bytes()) }
+func seedOf(sd int) common.Hash {
+	return crypto.Keccak256Hash([]byte("c04-seed"), big.NewInt(int64(sd)).Bytes())
+}
 
 func hashOfHex(s string) (common.Hash, error) {
 	if len(s)%2 == 1 {
@@ -114,9 +168,13 @@ func point(env *drive.Env, src, tag string, h common.Hash, w, a, b, ej int64) {
 
 // issue runs the real VrfSortition and records its result as a "choose" line and the priority with the per-seat hashes.
 func (wd *world) issue(env *drive.Env, bs Base, emit bool) (common.Hash, []byte, int64) {
-	val, proof, j := ucon.VrfSortition(wd.sks[bs.K], seedOf(bs.Sd), uint32(bs.Ix), uint32(bs.St), uint64(bs.A), big.NewInt(bs.W), big.NewInt(bs.B))
+	val, proof, j := ucon.VrfSortition(wd.sks[bs.K], wd.seed(bs), uint32(bs.Ix), uint32(bs.St), uint64(bs.A), big.NewInt(bs.W), big.NewInt(bs.B))
 	if emit {
-		env.Emit(map[string]interface{}{"ev": "choose", "src": "vrf", "tag": "issue", "ej": -1, "q": q(val, bs.W, bs.A, bs.B, int64(j))})
+		tag := "issue"
+		if bs.Sd == 0 {
+			tag = "issue_tail"
+		}
+		env.Emit(map[string]interface{}{"ev": "choose", "src": "vrf", "tag": tag, "ej": -1, "q": q(val, bs.W, bs.A, bs.B, int64(j))})
 		wd.priority(env, val, int64(j))
 	}
 	return val, proof, int64(j)
@@ -124,7 +182,7 @@ func (wd *world) issue(env *drive.Env, bs Base, emit bool) (common.Hash, []byte,
 
 // priority records computePriority(hash, j) next to the hash of every seat 0..j (keccak(hash || i), i as minimal big-endian bytes).
 func (wd *world) priority(env *drive.Env, val common.Hash, j int64) {
-	if j > 64 {
+	if j > 2000 {
 		return
 	}
 	var seats []string
@@ -139,7 +197,7 @@ func (wd *world) priority(env *drive.Env, val common.Hash, j int64) {
 // verify presents the credential issued for bs to the real verifier with one field perturbed.
 func (wd *world) verify(env *drive.Env, fn string, bs Base, pert, expect string) {
 	val, proof, ji := wd.issue(env, bs, false)
-	k, sd, ix, st, w, a, b, jc := bs.K, bs.Sd, bs.Ix, bs.St, bs.W, bs.A, bs.B, ji
+	k, sd, ix, st, w, a, b, jc := bs.K, wd.seed(bs), bs.Ix, bs.St, bs.W, bs.A, bs.B, ji
 	proof = append([]byte{}, proof...)
 	prio := ucon.VrfComputePriority(val, uint32(ji))
 	skip := ""
@@ -148,7 +206,20 @@ func (wd *world) verify(env *drive.Env, fn string, bs Base, pert, expect string)
 	case "key":
 		k = k%2 + 1
 	case "seed":
-		sd = sd%2 + 1
+		sd = seedOf(bs.Sd%2 + 1)
+	case "seed_first8": // differs in bytes 0..7 only
+		sd = flip(sd, 0, 3, 7)
+	case "seed_byte8":
+		sd = flip(sd, 8)
+	case "seed_last":
+		sd = flip(sd, 31)
+	case "j+2":
+		jc += 2
+	case "j=stake":
+		if jc == w {
+			skip = "j is the whole stake already"
+		}
+		jc = w
 	case "index":
 		ix = ix%2 + 1
 	case "step":
@@ -203,6 +274,9 @@ func (wd *world) verify(env *drive.Env, fn string, bs Base, pert, expect string)
 		skip = "outside the domain (p must be in (0, 1], stake >= 1)"
 	}
 	ev := map[string]interface{}{"ev": "verify", "fn": fn, "pert": pert, "expect": expect, "ji": ji}
+	if bs.Sd == 0 {
+		ev["tail"] = true
+	}
 	if skip != "" {
 		ev["skip"] = skip
 		env.Emit(ev)
@@ -212,9 +286,9 @@ func (wd *world) verify(env *drive.Env, fn string, bs Base, pert, expect string)
 		var ok bool
 		var err error
 		if fn == "priority" {
-			ok, err = ucon.VrfVerifyPriority(wd.pks[k], seedOf(sd), uint32(ix), uint32(st), proof, prio, uint32(jc), uint64(a), big.NewInt(w), big.NewInt(b))
+			ok, err = ucon.VrfVerifyPriority(wd.pks[k], sd, uint32(ix), uint32(st), proof, prio, uint32(jc), uint64(a), big.NewInt(w), big.NewInt(b))
 		} else {
-			ok, err = ucon.VrfVerifySortition(wd.pks[k], seedOf(sd), uint32(ix), uint32(st), proof, uint32(jc), uint64(a), big.NewInt(w), big.NewInt(b))
+			ok, err = ucon.VrfVerifySortition(wd.pks[k], sd, uint32(ix), uint32(st), proof, uint32(jc), uint64(a), big.NewInt(w), big.NewInt(b))
 		}
 		ev["accept"] = ok && err == nil
 		if err != nil {
@@ -225,7 +299,7 @@ func (wd *world) verify(env *drive.Env, fn string, bs Base, pert, expect string)
 	env.Emit(ev)
 }
 
-var allPerts = []string{"key", "seed", "index", "step", "j+1", "j-1", "proof_first", "proof_mid", "proof_last", "proof_trunc",
+var allPerts = []string{"key", "seed", "seed_first8", "seed_byte8", "seed_last", "j+2", "j=stake", "index", "step", "j+1", "j-1", "proof_first", "proof_mid", "proof_last", "proof_trunc",
 	"stake+1", "stake-1", "stake*2", "total+1", "total*2", "th+1", "th-1", "th*2"}
 
 func expectOf(p string) string {
@@ -297,6 +371,51 @@ func (wd *world) random(env *drive.Env, n int, maxw int64) {
 	}
 }
 
+// sequence executes Issue / Verify operations in this order in this process.  The seeds are fresh for every behaviour (derived from
+// the behaviour index), so that nothing evaluated for an earlier behaviour can be confused with them.
+func (wd *world) sequence(env *drive.Env, ops []SeqOp) {
+	const w, a, b = int64(40), int64(60), int64(100)
+	base := crypto.Keccak256Hash([]byte("c04-seq"), big.NewInt(int64(env.T)).Bytes(), big.NewInt(env.Seed).Bytes())
+	seed := func(sv string) common.Hash {
+		switch sv {
+		case "first8":
+			return flip(base, 0, 3, 7)
+		case "byte8":
+			return flip(base, 8)
+		case "last":
+			return flip(base, 31)
+		case "other":
+			return crypto.Keccak256Hash(base[:])
+		}
+		return base
+	}
+	type cr struct {
+		proof []byte
+		j     uint32
+	}
+	creds := map[Tup]cr{}
+	for _, op := range ops {
+		switch op.Op {
+		case "issue":
+			t := op.T
+			val, proof, j := ucon.VrfSortition(wd.sks[t.K], seed(t.Sv), uint32(t.Ix), uint32(t.St), uint64(a), big.NewInt(w), big.NewInt(b))
+			creds[t] = cr{proof, j}
+			env.Emit(map[string]interface{}{"ev": "seq_issue", "tup": t, "h": hx(val), "j": j})
+		case "verify":
+			c, t := creds[op.C], op.T
+			ev := map[string]interface{}{"ev": "seq_verify", "c": op.C, "as": t, "ji": c.j}
+			guard(ev, func() {
+				ok, err := ucon.VrfVerifySortition(wd.pks[t.K], seed(t.Sv), uint32(t.Ix), uint32(t.St), c.proof, c.j, uint64(a), big.NewInt(w), big.NewInt(b))
+				ev["accept"] = ok && err == nil
+				if err != nil {
+					ev["err"] = err.Error()
+				}
+			})
+			env.Emit(ev)
+		}
+	}
+}
+
 func run(env *drive.Env) error {
 	logging.Root().SetHandler(logging.DiscardHandler())
 	wd := newWorld(2)
@@ -322,6 +441,11 @@ func run(env *drive.Env) error {
 			wd.verify(env, it.Fn, it.Base, it.Pert, it.Expect)
 		case "R":
 			wd.random(env, it.N, it.MaxW)
+		case "S":
+			wd.sequence(env, it.Ops)
+		case "Q":
+			h := crypto.Keccak256Hash([]byte("c04-prio"), big.NewInt(int64(it.Hid)).Bytes(), big.NewInt(env.Seed).Bytes())
+			wd.priority(env, h, it.J)
 		default:
 			return fmt.Errorf("unknown item kind %q", it.Kind)
 		}
